@@ -217,7 +217,12 @@ class _ElseAfterExit(ast.NodeTransformer):
         for i, st in enumerate(stmts):
             if isinstance(st, ast.If) and not st.orelse and \
                     _terminates(st.body) and i + 1 < len(stmts):
-                st.orelse = self._nest(stmts[i + 1:])
+                rest = self._nest(stmts[i + 1:])
+                if len(rest) == 1 and isinstance(rest[0], ast.If):
+                    # `else: if ...` is an `elif`: a different edit (it
+                    # joins two statements into one chain), not covered
+                    return stmts[:i + 1] + rest
+                st.orelse = rest
                 return stmts[:i + 1]
         return stmts
 
@@ -311,8 +316,14 @@ def benign_variants() -> List[Tuple[str, Dict[str, str]]]:
     for rel, t in texts.items():
         tree = _DropDebug().visit(ast.parse(t))
         nodebug[rel] = ast.unparse(ast.fix_missing_locations(tree))
+    # whole-tree rewrites that the load-time canonicalisation
+    # (sa/normalize.py) reduces to the form the rules were confirmed on;
+    # "else-after-exit" is left out: `if c: return` + rest and
+    # `if c: return / else: rest` have no common normal form that also
+    # leaves the tree's `elif` ladders alone (DESIGN 8.18)
+    more = [(n, ov) for n, ov in stress_variants() if n != "else-after-exit"]
     return [("unparse-roundtrip", unparsed), ("rename-locals", renamed),
-            ("drop-debug-logging", nodebug)]
+            ("drop-debug-logging", nodebug)] + more
 
 
 def _run_benign(args: Tuple[str, str, Dict[str, str]]) -> Dict[str, Any]:
